@@ -19,6 +19,9 @@ func init() {
 			{Fn: "H_hist", Params: k(3), Tier: "quick", Reach: []string{"end"}},
 			{Fn: "H_hist", Params: k(4), Tier: "thorough", Reach: []string{"end"}},
 			{Fn: "H_step", Tier: "quick", Reach: []string{"end"}},
+			{Fn: "H_script_hist", Params: k(1), Fuel: 30_000_000, Tier: "quick", Reach: []string{"end"}},
+			{Fn: "H_script_hist", Params: k(2), Fuel: 30_000_000, Tier: "quick", Reach: []string{"end"}},
+			{Fn: "H_script_hist", Params: k(3), Fuel: 60_000_000, Tier: "thorough", Reach: []string{"end"}},
 			{Fn: "H_mw", Params: n(1), Tier: "quick", Reach: []string{"end"}},
 			{Fn: "H_mw", Params: n(2), Tier: "quick", Reach: []string{"end"}},
 			{Fn: "H_mw", Params: n(3), Tier: "quick", Reach: []string{"end"}},
